@@ -76,8 +76,10 @@ theorem readLen_acct (cfg : Cfg) (n : Int) (d : Dec) : Acct d (readLen cfg n d) 
   · split
     · split <;> trivial
     · split
-      · exact ⟨d.inp.take n.toNat, (List.take_append_drop _ _).symm, by simp only [List.length_take]; omega⟩
       · trivial
+      · split
+        · exact ⟨d.inp.take n.toNat, (List.take_append_drop _ _).symm, by simp only [List.length_take]; omega⟩
+        · trivial
 
 theorem allocElems_acct (cfg : Cfg) (n : Int) (d : Dec) : Acct d (allocElems cfg n d) := by
   unfold allocElems
@@ -85,7 +87,9 @@ theorem allocElems_acct (cfg : Cfg) (n : Int) (d : Dec) : Acct d (allocElems cfg
   · split <;> trivial
   · split
     · split <;> trivial
-    · exact acct_ok d _
+    · split
+      · trivial
+      · exact acct_ok d _
 
 theorem tagCount_acct (cfg : Cfg) (u : Nat) (d : Dec) : Acct d (tagCount cfg u d) := by
   unfold tagCount
@@ -205,20 +209,19 @@ theorem da_unit (cfg : Cfg) (flex : Bool) : DA cfg (.unit flex) := by
       bind_acct (taggedLoop_acct cfg _ (fun id idx dec h => by simp at h) k _ d2) fun _ d3 => acct_ok d3 _
   · exact acct_ok d _
 
-/-- the record-set reader plugged into the frame decoder (`Cfg.recs`, the C05 builder's hook), if any, keeps the frame
-accounting: bytes consumed = decrease of `remain`.  Holds trivially for the default (`none`: the built-in reader). -/
+/-- a detailed record-set reader plugged into the frame decoder (`Cfg.recs`, C20's Model/CodecRecords.lean) must itself account
+for the bytes it takes; with `recs = none` (the opaque-payload view, what `Gen.decoderCfg` is) this is vacuous -/
 def RecsAcct (cfg : Cfg) : Prop := ∀ h, cfg.recs = some h → ∀ d, Acct d (h d)
 
-theorem recsAcct_of_none {cfg : Cfg} (h : cfg.recs = none) : RecsAcct cfg := by
-  intro g hg; rw [h] at hg; cases hg
+theorem recsAcct_none (cfg : Cfg) (h : cfg.recs = none) : RecsAcct cfg := fun _ hh => by rw [h] at hh; cases hh
 
 theorem da_records (cfg : Cfg) (hr : RecsAcct cfg) : DA cfg .records := by
   intro d
   simp only [decode]
-  cases hc : cfg.recs with
-  | some h => exact hr h hc d
-  | none =>
-    exact bind_acct (readInt_acct 4 d) fun n d1 => by
+  split
+  · rename_i h heq
+    exact hr h heq d
+  · exact bind_acct (readInt_acct 4 d) fun n d1 => by
       split
       · exact acct_ok d1 _
       · exact bind_acct (readLen_acct cfg _ d1) fun _ d2 => acct_ok d2 _
